@@ -428,6 +428,7 @@ func scenarios(quick bool) []scenario {
 		{Edits: 1, Clash: "different-spec"},
 		{Edits: 1, Clash: "foreign", Faults: 1},
 		{Edits: 2, Conflicts: 1},
+		{Edits: 1, Pause: 2},
 	}
 	if !quick {
 		out = append(out, scenario{Edits: 3, Faults: 1, Stale: 1}, scenario{Edits: 3, Pause: 2}, scenario{Edits: 2, Faults: 2}, scenario{Edits: 2, Conflicts: 2, Stale: 1}, scenario{Edits: 2, Clash: "archived", Faults: 1, Stale: 1})
@@ -473,9 +474,9 @@ func init() {
 		},
 		Subs: []*checks.Sub{{Name: "bfs", Shards: func(t string) int {
 			if t == "thorough" {
-				return 9
+				return 12
 			}
-			return 5
+			return 7
 		}, Run: run, Replay: replay, Parallel: true},
 			{Name: "histories", Shards: func(string) int { return 8 }, Run: runHistories, Replay: replayHistory}},
 	})
